@@ -229,7 +229,8 @@ impl Hist {
                     let want = &self.st.refv[idx];
                     let exact = self.st.p.is_exact_class() && self.st.shadow[idx] < exact_bound();
                     let maxmag = self.st.refv.iter().map(|t| t.max_abs()).fold(1.0f64, f64::max);
-                    if let Err((k, d)) = compare(a.dimensions(), &vals(&a), want, if exact { Rule::Exact } else { Rule::Tol(maxmag) }) {
+                    let vscale = if exact { 1.0 } else { value_scales(&self.st.p).and_then(|v| v.get(idx).copied()).unwrap_or(1.0) };
+                    if let Err((k, d)) = compare(a.dimensions(), &vals(&a), want, if exact { Rule::Exact } else { Rule::Tol(maxmag.max(vscale)) }) {
                         self.fail(&format!("build-{}", k), format!("node n{}: {}", idx, d));
                     }
                     if idx % 3 != 0 {
